@@ -28,6 +28,17 @@ def load_check(pid):
     return importlib.import_module('checks.' + pid.lower())
 
 
+def _limit_memory():
+    """address-space cap per worker (default 24 GB): runaway growth in the code under test raises MemoryError inside the case instead of
+    getting the process killed by the kernel."""
+    try:
+        import resource
+        cap = int(os.environ.get('VERIF_MEM_CAP_GB', '24')) * 2 ** 30
+        resource.setrlimit(resource.RLIMIT_AS, (cap, cap))
+    except Exception:
+        pass
+
+
 def _worker(job):
     pid, fname, tier, seed, shard, nshards = job
     _quiet()
@@ -107,9 +118,24 @@ def check(pid, tier, seed, only=None, procs=None):
     if nproc <= 1:
         outs = [_worker(j) for j in jobs]
     else:
+        # ProcessPoolExecutor notices a worker that died (OOM kill, segfault) instead of waiting for ever
+        from concurrent.futures import ProcessPoolExecutor
+        from concurrent.futures.process import BrokenProcessPool
         ctx = mp.get_context('spawn')
-        with ctx.Pool(nproc) as pool:
-            outs = pool.map(_worker, jobs, chunksize=1)
+        outs = [None] * len(jobs)
+        try:
+            with ProcessPoolExecutor(max_workers=nproc, mp_context=ctx, initializer=_limit_memory) as pool:
+                futs = [pool.submit(_worker, j) for j in jobs]
+                for i, f in enumerate(futs):
+                    try:
+                        outs[i] = f.result()
+                    except BrokenProcessPool:
+                        outs[i] = ('err', '%s shard %d: a worker process died (killed / crashed) while this job was queued or running' % (jobs[i][1], jobs[i][4]))
+                    except BaseException as e:
+                        outs[i] = ('err', '%s shard %d: %r' % (jobs[i][1], jobs[i][4], e))
+        except BrokenProcessPool:
+            pass
+        outs = [o if o is not None else ('err', 'job not run: worker pool broke') for o in outs]
     for o in outs:
         (results if o[0] == 'ok' else errors).append(o[1])
     if errors:
